@@ -82,7 +82,7 @@ class C08(Spec):
     driver = 'map'
     lib_srcs = ['rbtree.c', 'bintree.c']
     driver_extra = '-I%s/src -Wl,--wrap=malloc,--wrap=realloc,--wrap=free,--wrap=calloc'
-    header_words = ('fail', 'failfrom', 'cmpmod', 'cmpmode')
+    header_words = ('fail', 'failfrom', 'cmpmod', 'cmpmode', 'ptrrep')
     rule = ('cases = corpus + one case per edge of the breadth-first closure of the Coq model over a small key '
             'universe (incl. allocation failures) + seeded random histories; non-trivial = at least two completed '
             'operations; distinct = distinct (header, operations) text')
@@ -166,7 +166,7 @@ class C08(Spec):
         for ci in range(n):
             nk = rnd.choice([4, 8, 16, 40])
             mod = rnd.choice([0, 0, 0, 3, 7])
-            hdr = ['cmpmode %d' % rnd.randrange(3)]
+            hdr = ['cmpmode %d' % rnd.randrange(3), 'ptrrep %d' % rnd.randrange(2)]
             if mod:
                 hdr.append('cmpmod %d' % mod)
             if rnd.random() < 0.4:
